@@ -146,6 +146,8 @@ def gen_case(rng: random.Random, algo: str, T: int, E: int, ids, exact: bool, ve
         nvb = None
     case = {"algo": algo, "ids": ids, "T": T, "E": E, "vec": bool(vec or E > 1), "gamma": g, "lam": l,
             "akind": rng.choice(["box", "box", "discrete"]), "share": bool(rng.random() < 0.5), "exact": exact,
+            # PPO: flat Box, or Dict / Tuple with a Box member and a Discrete (scalar) member
+            "okind": rng.choice(["vector", "vector", "dict", "tuple"]) if algo == "PPO" and vec else "vector",
             "nvb": nvb, "rdtype": rng.choice(["f64", "f64", "f32"]), "seed": rng.randrange(1 << 30),
             "r": {}, "v": {}, "d": {}, "nd": {}}
     if algo == "IPPO" and T * E == 1 and any(len(m) == 1 for _, m in groups_of(case)):
@@ -195,7 +197,14 @@ def has_boundary(case) -> bool:
 def build_agent(case):
     import agents
     g, l = float(Fr(case["gamma"])), float(Fr(case["lam"]))
-    if case["algo"] == "PPO":
+    if case["algo"] == "PPO" and case.get("okind", "vector") != "vector":
+        from agilerl.algorithms import PPO
+        agents.seed_all(case["seed"])
+        ag = PPO(multi_obs_space(case["okind"]), agents.act_space(case["akind"]), index=0,
+                 net_config=copy.deepcopy(agents.default_net_config("PPO", "dict")), batch_size=16, device="cpu",
+                 accelerator=None, learn_step=8, update_epochs=1, share_encoders=case["share"], gamma=g, gae_lambda=l)
+        critics = [ag.critic]
+    elif case["algo"] == "PPO":
         ag = agents.build("PPO", "vector", seed=case["seed"], share_encoders=case["share"],
                           action_kind=case["akind"], gamma=g, gae_lambda=l, batch_size=16, update_epochs=1)
         critics = [ag.critic]
@@ -217,6 +226,22 @@ def build_agent(case):
                 lin.weight.zero_()
                 lin.bias.fill_(b)
     return ag
+
+
+def multi_obs_space(okind: str):
+    """Dict / Tuple observation with a Box(3,) member [step, env, code] and a Discrete(32) member = code"""
+    from gymnasium import spaces
+    vec, k = spaces.Box(-1.0, 1.0, (3,), np.float32), spaces.Discrete(32)
+    return spaces.Dict({"vec": vec, "k": k}) if okind == "dict" else spaces.Tuple((vec, k))
+
+
+def pack_obs(okind: str, s4: np.ndarray):
+    """[agent, step, env, code] rows -> the observation of the case's kind (PPO: agent is always 0)"""
+    if okind == "vector":
+        return s4
+    vec = np.ascontiguousarray(s4[..., 1:4]).astype(np.float32)
+    k = np.clip(s4[..., 3], 0, 31).astype(np.int64)
+    return {"vec": vec, "k": k} if okind == "dict" else (vec, k)
 
 
 def act_dim(case, a) -> int:
@@ -255,13 +280,15 @@ def make_rollout(case, next_shift: float = 0.0):
                 s, ac, lp, v = s[0], ac[0], lp[0], v[0]
                 r = float(r[0])
                 d = d if ippo else d[0]
+            s = pack_obs(case.get("okind", "vector"), s)
             S[a].append(s), A[a].append(ac), L[a].append(lp), R[a].append(r), D[a].append(d), V[a].append(v)
-        ns = np.array([[ai, 9 + next_shift, e, 0.5] for e in range(E)], dtype=np.float32)
+        ns = np.array([[ai, 9 + next_shift, e, 0.5 if case.get("okind", "vector") == "vector" else 31]
+                       for e in range(E)], dtype=np.float32)
         nd = np.array(case["nd"][a], dtype=np.int8)
         if not vec:
             ns = ns[0]
             nd = nd if ippo else nd[0]
-        NS[a], ND[a] = ns, nd
+        NS[a], ND[a] = pack_obs(case.get("okind", "vector"), ns), nd
     if ippo:
         return (S, A, L, R, D, V, NS, ND)
     return tuple(x["_"] for x in (S, A, L, R, D, V, NS, ND))
@@ -436,13 +463,26 @@ def analyse_group(case, gid, members, gae, rows, boot, roll_path):
         x = x.to(torch.float64).reshape(N, -1) if x.numel() % N == 0 and x.numel() else None
         return None if x is None else x.numpy()
 
+    def members_of(x):
+        """every member of the flattened observations: [(name, (N, w) array)]"""
+        if isinstance(x, dict):
+            items = list(x.items())
+        elif isinstance(x, (tuple, list)):
+            items = list(enumerate(x))
+        else:
+            items = [("obs", x)]
+        return [(str(k), rowsof(val)) for k, val in items]
+
     try:
-        st, ac = rowsof(rows["states"]), rowsof(rows["actions"])
+        st_members = members_of(rows["states"])
+        st = st_members[0][1]
+        ac = rowsof(rows["actions"])
         lp, va = rowsof(rows["log_probs"]), rowsof(rows["values"])
         ad, re = rowsof(rows["advantages"]), rowsof(rows["returns"])
     except KeyError as e:
         raise InfraError(f"recorder record lacks {e}") from None
-    if any(x is None for x in (st, ac, lp, va, ad, re)) or st.shape[1] != 4 or any(x.shape[1] != 1 for x in (lp, va, ad, re)):
+    if any(x is None for x in [m for _, m in st_members] + [ac, lp, va, ad, re]) or \
+            any(m.shape[1] not in (1, 3, 4) for _, m in st_members) or any(x.shape[1] != 1 for x in (lp, va, ad, re)):
         problems.append(f"[rows] group {gid}: the training rows do not have {N} = agents*steps*envs rows "
                         f"(shapes {[tuple(rows[k].shape) if hasattr(rows[k], 'shape') else '?' for k in rows]})")
         return impl, ops, numeric, problems, stats0
@@ -458,11 +498,23 @@ def analyse_group(case, gid, members, gae, rows, boot, roll_path):
 
     t_states, t_actions, t_logp, t_vals, t_adv, t_ret = [], [], [], [], [], []
     vlook = {v[t][c]: (c // E, t, c % E) for t in range(T) for c in range(C)}
+    def member_tag(m, i):
+        """the sample an observation member of row i belongs to (every member carries the code)"""
+        s = m[i]
+        if len(s) == 4:                                   # [agent, step, env, code]
+            q = from_code(s[3])
+            return q if q is not None and (s[0], s[1], s[2]) == (gl[members[q[0]]], q[1], q[2]) else None
+        if len(s) == 3:                                   # [step, env, code]
+            q = from_code(s[2])
+            return q if q is not None and (s[0], s[1]) == (q[1], q[2]) else None
+        return from_code(s[0])                            # Discrete member: the code itself
+
+    split_obs = None
     for i in range(N):
-        s = st[i]
-        p = from_code(s[3])
-        if p is None or (s[0], s[1], s[2]) != (gl[members[p[0]]], p[1], p[2]):
-            p = None
+        tags_i = [member_tag(m, i) for _, m in st_members]
+        p = tags_i[0] if all(x == tags_i[0] for x in tags_i) else None
+        if p is None and split_obs is None and len(tags_i) > 1:
+            split_obs = (i, [(nm, x) for (nm, _), x in zip(st_members, tags_i)])
         t_states.append(p)
         # actions
         if case["akind"] == "box":
@@ -508,6 +560,12 @@ def analyse_group(case, gid, members, gae, rows, boot, roll_path):
                         f"(agent {members[x[0]]}, step {x[1]}, env {x[2]})"
                     first = f"row {i} holds the observation of {who(p)} but the {nm} of {who(lst[i])}"
                 break
+    if split_obs is not None:
+        i, parts = split_obs
+        problems.append(f"[rows] group {gid}: the members of the observation in training row {i} belong to different "
+                        "samples: " + ", ".join(f"{nm!r} -> " + ("?" if x is None else f"(step {x[1]}, env {x[2]})")
+                                                for nm, x in parts)
+                        + f" (observation kind {case.get('okind')}, steps {T}, envs {E})")
     if mis:
         problems.append(f"[rows] group {gid}: {first}; {mis} of {N} training rows mix samples "
                         f"(agents sharing the policy: {A}, steps {T}, envs {E})")
@@ -624,7 +682,7 @@ def one_case(chk: Check, case, rng_leak: random.Random | None = None):
 def case_tags(case):
     A = max(len(m) for _, m in groups_of(case))
     t = [f"algo-{case['algo']}", f"T-{case['T']}", f"E-{case['E']}", f"shared-{A}", f"act-{case['akind']}",
-         "exact" if case["exact"] else "float", "vec" if case["vec"] else "unvec",
+         "exact" if case["exact"] else "float", "vec" if case["vec"] else "unvec", f"obs-{case.get('okind', 'vector')}",
          f"gl-{case['gamma']},{case['lam']}"]
     if any(m != sorted(m) for _, m in groups_of(case)):
         t.append("group-order-not-lexicographic")
@@ -742,6 +800,511 @@ def probe_bootstrap(chk: Check, rng: random.Random, n_learn: int, report: bool =
     return found
 
 
+# ----------------------------------------------------------------------------- loop-level suite
+# The rollouts learn() receives are built by the training loops: run the REAL train_on_policy /
+# train_multi_agent_on_policy on scripted environments that keep their own episode log, and hold what
+# reaches learn() (via the recorder) against that log.
+END_KINDS = ["term", "trunc", "both"]
+LOOP_GUARD_S = 90
+
+
+class _Script:
+    """episode schedule of one sub-environment: a cyclic list of (length, kind of ending)"""
+
+    def __init__(self, sched):
+        self.sched = [(max(1, int(n)), str(k)) for n, k in sched]
+        self.i = 0          # schedule entry of the running episode
+        self.k = 0          # steps taken in the running episode
+        self.ep = 0         # episodes started
+
+    def begin(self):
+        """env.reset(): abandon a running episode, start the next one"""
+        if self.k > 0:
+            self.i += 1
+            self.k = 0
+        self.ep += 1
+
+    def advance(self):
+        """one step; returns (ended, terminated, truncated)"""
+        self.k += 1
+        n, kind = self.sched[self.i % len(self.sched)]
+        if self.k < n:
+            return False, False, False
+        self.i += 1
+        self.k = 0
+        return True, kind in ("term", "both"), kind in ("trunc", "both")
+
+
+def _loop_reward(g: int, e: int, ai: int) -> float:
+    return ((g * 7 + e * 3 + ai * 5) % 17 - 8) / 4.0
+
+
+class ScriptVecEnv:
+    """vectorised single-agent env (auto-reset inside, as gymnasium vector envs: the observation returned
+    with an episode end is already the first one of the next episode); obs = [env, episode, step, clock]"""
+
+    def __init__(self, schedules):
+        from gymnasium import spaces
+        self.scripts = [_Script(s) for s in schedules]
+        self.num_envs = len(self.scripts)
+        self.single_observation_space = spaces.Box(-1.0, 1.0, (4,), np.float32)
+        self.single_action_space = spaces.Discrete(3)
+        self.observation_space, self.action_space = self.single_observation_space, self.single_action_space
+        self.g = 0
+        self.log: list[dict] = []
+
+    def _obs(self):
+        return np.array([[e, s.ep % 50, s.k, self.g % 50] for e, s in enumerate(self.scripts)], dtype=np.float32) / 8
+
+    def reset(self, seed=None, options=None):
+        for s in self.scripts:
+            s.begin()
+        return self._obs(), {}
+
+    def step(self, action):
+        self.g += 1
+        ended, term, trunc = zip(*(s.advance() for s in self.scripts))
+        for s, x in zip(self.scripts, ended):
+            if x:
+                s.ep += 1
+        rew = np.array([_loop_reward(self.g, e, 0) for e in range(self.num_envs)], dtype=np.float64)
+        self.log.append({"ended": list(ended), "term": list(term), "trunc": list(trunc),
+                         "reward": {"_": rew.tolist()}})
+        return self._obs(), rew, np.array(term), np.array(trunc), {}
+
+    def close(self):
+        pass
+
+
+class ScriptParallelEnv:
+    """PettingZoo-style parallel env.  vectorised=True: has `num_envs`, arrays with a leading env dimension and
+    auto-reset inside; vectorised=False: a plain env (no `num_envs`), scalars, the training loop has to reset it.
+    All agents of a sub-environment finish together."""
+
+    metadata = {"name": "c17_script_parallel"}
+
+    def __init__(self, ids, schedules, vectorised: bool):
+        from gymnasium import spaces
+        self.possible_agents = list(ids)
+        self.agents = list(ids)
+        self.scripts = [_Script(s) for s in schedules]
+        self.vectorised = bool(vectorised)
+        if vectorised:
+            self.num_envs = len(self.scripts)
+        self._obs_space = spaces.Box(-1.0, 1.0, (4,), np.float32)
+        self.g = 0
+        self.log: list[dict] = []
+        self.stepped_after_end = 0
+        self._over = False
+
+    def observation_space(self, agent):
+        return self._obs_space
+
+    def action_space(self, agent):
+        import agents as _a
+        return _a.act_space("discrete", 1 if agent.startswith("other") else 0)
+
+    def _obs(self):
+        out = {}
+        for ai, a in enumerate(self.possible_agents):
+            o = np.array([[e + 4 * ai, s.ep % 50, s.k, self.g % 50] for e, s in enumerate(self.scripts)],
+                         dtype=np.float32) / 8
+            out[a] = o if self.vectorised else o[0]
+        return out
+
+    def reset(self, seed=None, options=None):
+        for s in self.scripts:
+            s.begin()
+        self._over = False
+        self.agents = list(self.possible_agents)
+        return self._obs(), {a: {} for a in self.possible_agents}
+
+    def step(self, actions):
+        if self._over:                   # a plain env stepped again without reset: count it, carry on
+            self.stepped_after_end += 1
+            for s in self.scripts:
+                s.ep += 1
+        self.g += 1
+        ended, term, trunc = zip(*(s.advance() for s in self.scripts))
+        n = len(self.scripts)
+        rew = {a: [_loop_reward(self.g, e, ai) for e in range(n)] for ai, a in enumerate(self.possible_agents)}
+        self.log.append({"ended": list(ended), "term": list(term), "trunc": list(trunc), "reward": rew})
+        if self.vectorised:
+            for s, x in zip(self.scripts, ended):
+                if x:
+                    s.ep += 1
+            r = {a: np.array(v, dtype=np.float64) for a, v in rew.items()}
+            te = {a: np.array(term) for a in self.possible_agents}
+            tr = {a: np.array(trunc) for a in self.possible_agents}
+        else:
+            self._over = bool(ended[0])
+            r = {a: float(v[0]) for a, v in rew.items()}
+            te = {a: bool(term[0]) for a in self.possible_agents}
+            tr = {a: bool(trunc[0]) for a in self.possible_agents}
+        return self._obs(), r, te, tr, {a: {} for a in self.possible_agents}
+
+    def close(self):
+        pass
+
+
+def gen_loop_case(rng: random.Random, algo: str, vec: bool, T: int, E: int, R: int, ids=None):
+    """schedules are built so that episodes end by termination, by truncation only and by both, strictly inside
+    rollouts and exactly on their last step"""
+    E = E if vec else 1
+    sched = []
+    for e in range(E):
+        body = [[rng.randint(1, max(1, T - 1)), rng.choice(END_KINDS)] for _ in range(3 * R + 4)]
+        if e == 0 and T >= 3:
+            head = [[2, "trunc"], [T - 2, rng.choice(["term", "both"])], [1, "both"], [T - 1, "trunc"]]
+        elif e == 1:
+            head = [[T, "trunc"], [max(1, T - 2), "term"]]
+        else:
+            head = [[rng.randint(1, T), rng.choice(END_KINDS)]]
+        sched.append(head + body)
+    g, l = rng.choice([("9/10", "4/5"), ("99/100", "19/20"), ("1/2", "3/4"), ("1", "1")])
+    return {"suite": "loop", "algo": algo, "vec": bool(vec), "T": T, "E": E, "R": R,
+            "ids": list(ids) if algo == "IPPO" else ["_"], "schedules": sched, "gamma": g, "lam": l,
+            "share": bool(rng.random() < 0.5), "seed": rng.randrange(1 << 30)}
+
+
+class _Guard:
+    """wall-clock guard around a training loop (main thread only)"""
+
+    def __init__(self, seconds: int):
+        self.seconds = seconds
+
+    def __enter__(self):
+        import signal
+
+        def boom(signum, frame):
+            raise InfraError(f"C17 loop suite: a training loop exceeded the wall-clock guard of {self.seconds}s")
+        try:
+            self.old = signal.signal(signal.SIGALRM, boom)
+            signal.alarm(self.seconds)
+            self.armed = True
+        except ValueError:                                # not in the main thread
+            self.armed = False
+        return self
+
+    def __exit__(self, *exc):
+        import signal
+        if self.armed:
+            signal.alarm(0)
+            signal.signal(signal.SIGALRM, self.old)
+        return False
+
+
+def _loop_groups(lc):
+    return groups_of({"algo": lc["algo"], "ids": lc["ids"]})
+
+
+def _truth(env, start, T, e):
+    """(k, ended flags) of env column e in the T steps from log position `start`; k = first step index that
+    belongs to a new episode (T when the episode ends on the last step, None without an end)"""
+    ended = [bool(env.log[start + t]["ended"][e]) for t in range(T)]
+    ks = [t + 1 for t in range(T) if ended[t]]
+    return (ks[0] if ks else None), ended
+
+
+def _perturb_loop_experiences(lc, experiences, env, start, T):
+    """copy of the experiences with rewards/values (and next_state) replaced from the TRUE episode boundary of
+    every column on; flags are left exactly as the loop produced them"""
+    ex = copy.deepcopy(experiences)
+    E = lc["E"]
+    keys = [None] if lc["algo"] == "PPO" else lc["ids"]
+    claims = []
+    for e in range(E):
+        k, _ = _truth(env, start, T, e)
+        if k is None:
+            continue
+        claims.append((e, k))
+        for a in keys:
+            rew = ex[3] if a is None else ex[3][a]
+            val = ex[5] if a is None else ex[5][a]
+            for t in range(k, T):
+                if np.ndim(rew[t]) == 0:
+                    rew[t] = float(rew[t]) + 1.5
+                else:
+                    rew[t] = np.array(rew[t], copy=True)
+                    rew[t][e] += 1.5
+                val[t] = np.array(val[t], copy=True)
+                val[t][e] += 2.25
+            ns = ex[6] if a is None else ex[6][a]
+            ns = np.array(ns, copy=True)
+            if ns.ndim == 1:
+                ns += 3.0
+            else:
+                ns[e] += 3.0
+            if a is None:
+                ex = ex[:6] + (ns,) + ex[7:]
+            else:
+                ex[6][a] = ns
+    return ex, claims
+
+
+def run_loop_case(chk: Check, lc):
+    """returns dict(problems, diff, impl, model, tags, rollouts)"""
+    import contextlib
+    import io
+    import agents
+    vh = hooks()
+    out = {"problems": [], "diff": None, "impl": [], "model": [], "tags": [], "rollouts": 0, "raised": None,
+           "claims": 0}
+    T, E, R, ids = lc["T"], lc["E"], lc["R"], lc["ids"]
+    g, l = float(Fr(lc["gamma"])), float(Fr(lc["lam"]))
+    grp = _loop_groups(lc)
+    agents.seed_all(lc["seed"])
+    if lc["algo"] == "PPO":
+        from agilerl.training.train_on_policy import train_on_policy as train
+        env = ScriptVecEnv(lc["schedules"])
+        agent = agents.build("PPO", "vector", seed=lc["seed"], share_encoders=lc["share"], action_kind="discrete",
+                             gamma=g, gae_lambda=l, batch_size=16, update_epochs=1, learn_step=T * E)
+    else:
+        from agilerl.algorithms import IPPO
+        from agilerl.training.train_multi_agent_on_policy import train_multi_agent_on_policy as train
+        env = ScriptParallelEnv(ids, lc["schedules"], lc["vec"])
+        agent = IPPO(observation_spaces=[env.observation_space(a) for a in ids],
+                     action_spaces=[env.action_space(a) for a in ids], agent_ids=list(ids),
+                     net_config=agents.default_net_config("IPPO", "vector"), batch_size=16, device="cpu",
+                     accelerator=None, learn_step=T * E, update_epochs=1, gamma=g, gae_lambda=l)
+    calls: list[dict] = []
+    orig_learn = agent.learn
+    pre = "ppo" if lc["algo"] == "PPO" else "ippo"
+
+    def spy(experiences):
+        call = {"end": len(env.log), "twin": None, "claims": []}
+        calls.append(call)
+        n_steps = len(experiences[3]) if lc["algo"] == "PPO" else len(next(iter(experiences[3].values())))
+        start = call["end"] - n_steps
+        if start >= 0:
+            # no-leak: an identical twin learns from the same rollout with everything after the TRUE
+            # episode boundaries replaced; RNG streams are preserved so that training is not disturbed
+            rs = (random.getstate(), np.random.get_state(), torch.get_rng_state())
+            mark = len(vh.RECORDS)
+            try:
+                pert, claims = _perturb_loop_experiences(lc, experiences, env, start, n_steps)
+                if claims:
+                    twin = agent.clone(wrap=False)
+                    type(twin).learn(twin, pert)
+                    call["twin"] = [r for t_, r in vh.RECORDS[mark:] if t_ == pre + ".gae"]
+                    del vh.RECORDS[mark:]
+                    call["claims"] = claims
+            except InfraError:
+                raise
+            except Exception as e:                        # noqa: BLE001 - the twin is best effort
+                call["twin_error"] = f"{type(e).__name__}: {str(e)[:120]}"
+                del vh.RECORDS[mark:]
+            finally:
+                random.setstate(rs[0]), np.random.set_state(rs[1]), torch.set_rng_state(rs[2])
+        call["mark"] = len(vh.RECORDS)
+        res = orig_learn(experiences)
+        call["gae"] = [r for t_, r in vh.RECORDS[call["mark"]:] if t_ == pre + ".gae"]
+        return res
+
+    agent.learn = spy
+    vh.clear()
+    sink = io.StringIO()
+    try:
+        with _Guard(LOOP_GUARD_S), contextlib.redirect_stdout(sink), contextlib.redirect_stderr(sink):
+            train(env, "c17-script-env", lc["algo"], [agent], max_steps=R * T * E, evo_steps=R * T * E,
+                  eval_steps=2, eval_loop=1, wb=False, verbose=False, tournament=None, mutation=None)
+    except InfraError:
+        raise
+    except Exception as e:                                # noqa: BLE001 - the training loop raised
+        out["raised"] = f"{type(e).__name__}: {str(e)[:200]}"
+        out["problems"].append(f"[raised] {train.__name__} raised on a scripted {'vectorised' if lc['vec'] else 'plain'} "
+                               f"env ({lc['algo']}, T={T}, envs={E}): {out['raised']}")
+        return out
+    finally:
+        vh.clear()
+        try:
+            del agent.learn
+        except AttributeError:
+            pass
+    if not calls:
+        out["problems"].append(f"[raised] {train.__name__} never called learn() in {R} rollouts")
+        return out
+    out["rollouts"] = len(calls)
+    gamma, lam = Fr(lc["gamma"]), Fr(lc["lam"])
+    ops, impl = [], []
+    for ci, call in enumerate(calls):
+        if len(call.get("gae", [])) != len(grp):
+            raise InfraError(f"recorder produced {len(call.get('gae', []))} '{pre}.gae' records for {len(grp)} policy "
+                             "group(s) in a training-loop learn() call: hook call sites missing")
+        for gi, (gid, members) in enumerate(grp):
+            rec = call["gae"][gi]
+            A = len(members)
+            C = A * E
+            Tn = int(np.asarray(rec["rewards"]).reshape(-1).size // C)
+            start = call["end"] - Tn
+            m = lambda x: np.asarray(x.to(torch.float64) if isinstance(x, torch.Tensor) else x,
+                                     dtype=np.float64).reshape(Tn, C)
+            R_, V_, D_, ADV, RET = (m(rec[k]) for k in ("rewards", "values", "dones", "advantages", "returns"))
+            NV_ = np.asarray(rec["next_value"], dtype=np.float64).reshape(-1)
+            if NV_.size == 1 and C > 1:
+                NV_ = np.repeat(NV_, C)
+            ND_ = np.asarray(rec["next_done"], dtype=np.float64).reshape(-1)
+            where = f"rollout {ci} ({lc['algo']}, {'vectorised' if lc['vec'] else 'plain'} env), group {gid}"
+            if Tn != T or start < 0:
+                out["problems"].append(f"[loop-inputs] {where}: learn() received {Tn} steps, the loop was configured "
+                                       f"for {T} (learn_step={T * E}, envs={E})")
+                continue
+            dt = [[0] * C for _ in range(T)]
+            ndt = [0] * C
+            for c in range(C):
+                a, e = members[c // E], c % E
+                k, ended = _truth(env, start, T, e)
+                for t in range(T):
+                    want = env.log[start + t]["reward"][a][e]
+                    if abs(R_[t][c] - want) > 1e-6:
+                        out["problems"].append(f"[loop-inputs] {where}: rewards[{t}] of agent {a} env {e} is "
+                                               f"{R_[t][c]}, the environment paid {want} at that step")
+                        break
+                for t in range(1, T):
+                    dt[t][c] = int(ended[t - 1])
+                    if int(D_[t][c]) != dt[t][c]:
+                        kind = "termination" if env.log[start + t - 1]["term"][e] and not env.log[start + t - 1]["trunc"][e] \
+                            else ("truncation" if not env.log[start + t - 1]["term"][e] else "termination+truncation")
+                        out["problems"].append(
+                            f"[loop-flags] {where}: agent {a} env {e}: " +
+                            (f"the episode ended at step {t - 1} by {kind}, so step {t} is the first step of a new "
+                             f"episode, but dones[{t}] = {int(D_[t][c])}" if dt[t][c] else
+                             f"no episode ended at step {t - 1} but dones[{t}] = {int(D_[t][c])}"))
+                        break
+                ndt[c] = int(ended[T - 1])
+                if int(ND_[c]) != ndt[c]:
+                    out["problems"].append(f"[loop-flags] {where}: agent {a} env {e}: next_done = {int(ND_[c])} but the "
+                                           f"episode {'ended' if ndt[c] else 'did not end'} on the last step of the rollout")
+            # the recursion with the TRUE boundaries, on the recorded rewards/values/bootstrap
+            bad = None
+            for c in range(C):
+                a_, r_, _ = gae_column(gamma, lam, [fr_of(R_[t][c]) for t in range(T)],
+                                       [fr_of(V_[t][c]) for t in range(T)], [dt[t][c] for t in range(T)],
+                                       fr_of(NV_[c]), ndt[c])
+                for t in range(T):
+                    if bad is None and (not close(fr_of(ADV[t][c]), a_[t]) or not close(fr_of(RET[t][c]), r_[t])):
+                        bad = (t, c, float(a_[t]))
+            if bad is not None:
+                t, c, want = bad
+                out["problems"].append(f"[recursion] {where}: advantage of agent {members[c // E]} step {t} env {c % E} "
+                                       f"is {ADV[t][c]}, the recursion over the episodes the environment really played "
+                                       f"gives {want} (gamma={lc['gamma']} lambda={lc['lam']})")
+            fl = lambda mm: " ".join(frac(fr_of(x)) for row in mm for x in row)
+            ops.append(f"gae run {frac(gamma)} {frac(lam)} {T} {C} {fl(R_)} " + " ".join(str(x) for row in dt for x in row)
+                       + f" {fl(V_)} " + " ".join(frac(fr_of(x)) for x in NV_) + " " + " ".join(str(x) for x in ndt))
+            impl.append(" ".join(frac(fr_of(x)) for x in ADV.reshape(-1)) + " | "
+                        + " ".join(frac(fr_of(x)) for x in RET.reshape(-1)))
+            # no-leak against the twin
+            if call.get("twin") and len(call["twin"]) == len(grp):
+                ADV2 = m(call["twin"][gi]["advantages"])
+                RET2 = m(call["twin"][gi]["returns"])
+                for e, k in call["claims"]:
+                    out["claims"] += 1
+                    for ai in range(A):
+                        c = ai * E + e
+                        hit = [t for t in range(k) if ADV[t][c] != ADV2[t][c] or RET[t][c] != RET2[t][c]]
+                        if hit:
+                            out["problems"].append(
+                                f"[leak] {where}: agent {members[ai]} env {e}: a new episode starts at step {k}"
+                                f"{' (the rollout ends with the episode)' if k == T else ''}; replacing only rewards/values "
+                                f"from step {k} on and the final next observation changed the advantage at step {hit[0]}: "
+                                f"{ADV[hit[0]][c]} -> {ADV2[hit[0]][c]}")
+                            break
+            # coverage tags
+            for e in range(E):
+                for t in range(T):
+                    x = env.log[start + t]
+                    if x["ended"][e]:
+                        kind = "both" if x["term"][e] and x["trunc"][e] else ("term" if x["term"][e] else "trunc")
+                        out["tags"].append(f"loop-end-{kind}-{'last-step' if t == T - 1 else 'inside'}")
+    if getattr(env, "stepped_after_end", 0):
+        out["problems"].append(f"[loop-flags] the plain environment was stepped {env.stepped_after_end} time(s) after an "
+                               "episode had ended without being reset")
+    twin_errors = sorted({c["twin_error"] for c in calls if c.get("twin_error")})
+    if twin_errors:
+        out["tags"].append("loop-twin-unavailable")
+        out["twin_errors"] = twin_errors
+    model = chk.driver.run(["reset"] + ops)[1:] if ops else []
+    chk.corr["model_lines"] += len(ops)
+    out["impl"], out["model"] = impl, model
+    out["diff"] = compare_lines(impl, model, [True] * len(impl))
+    out["tags"] = sorted(set(out["tags"]))
+    return out
+
+
+def loop_cases(rng: random.Random, tier: str):
+    cases = [gen_loop_case(rng, "PPO", True, 5, 3, 3), gen_loop_case(rng, "PPO", True, 4, 2, 3),
+             gen_loop_case(rng, "IPPO", True, 4, 2, 3, ID_SETS[1]), gen_loop_case(rng, "IPPO", True, 5, 2, 2, ID_SETS[4]),
+             gen_loop_case(rng, "IPPO", False, 6, 1, 3, ID_SETS[1]), gen_loop_case(rng, "IPPO", False, 5, 1, 3, ID_SETS[5])]
+    for _ in range(4 if tier == "quick" else 60):
+        algo = rng.choice(["PPO", "IPPO", "IPPO"])
+        vec = True if algo == "PPO" else rng.random() < 0.5
+        cases.append(gen_loop_case(rng, algo, vec, rng.randint(3, 6), rng.randint(1, 3) if vec else 1,
+                                   rng.randint(2, 3), rng.choice(ID_SETS[:6] + UNSORTED_ID_SETS[:2])))
+    return cases
+
+
+def shrink_loop(chk, lc, kind):
+    """fewer rollouts / environments on which the same kind of problem is still seen"""
+    def fails(c):
+        return any(kind_of(p) == kind for p in run_loop_case(chk, c)["problems"])
+    best = lc
+    for R in range(1, lc["R"]):
+        c = dict(best, R=R)
+        if fails(c):
+            best = c
+            break
+    if best["vec"] and best["E"] > 1:
+        keep = ddmin(list(range(best["E"])), lambda es: fails(dict(best, E=len(es), schedules=[best["schedules"][e] for e in es])))
+        best = dict(best, E=len(keep), schedules=[best["schedules"][e] for e in keep])
+    return best
+
+
+def run_loop_suite(chk: Check, rng: random.Random, seen_kinds: set, corpus=()):
+    n = {"PPO": [0, 0], "IPPO": [0, 0]}
+    notes = set()
+    for lc in list(corpus) + loop_cases(rng, chk.tier):
+        o = run_loop_case(chk, lc)
+        ends = [t for t in o["tags"] if t.startswith("loop-end")]
+        chk.case(lc, nontrivial=bool(ends),
+                 sample={k: lc[k] for k in ("suite", "algo", "vec", "T", "E", "R", "ids", "gamma", "lam")} |
+                        {"schedules": [s[:4] for s in lc["schedules"]]},
+                 tags=[f"loop-{lc['algo']}-{'vec' if lc['vec'] else 'plain'}", "loop-case"] + o["tags"]
+                      + (["loop-no-leak-claims"] if o["claims"] else []))
+        n[lc["algo"]][0] += 1
+        for te in o.get("twin_errors", []):
+            notes.add(f"loop suite: no-leak twin unavailable ({te})")
+        if o["diff"] is None and not o["problems"]:
+            continue
+        n[lc["algo"]][1] += o["diff"] is not None
+        kind = kind_of(o["problems"][0]) if o["problems"] else "[loop-diff"
+        small, o2 = lc, o
+        if o["problems"] and kind not in seen_kinds and len(seen_kinds) < 6:
+            seen_kinds.add(kind)
+            try:
+                cand = shrink_loop(chk, lc, kind)
+                oc = run_loop_case(chk, cand)
+                if any(kind_of(p) == kind for p in oc["problems"]):
+                    small, o2 = cand, oc
+            except InfraError:
+                raise
+            except Exception:                             # noqa: BLE001 - shrinking is best effort
+                pass
+        replay = {"case": small, "impl": o2["impl"], "model": o2["model"], "diff_at": o2["diff"],
+                  "oracle_problems": o2["problems"], "correspondence": "harness/c17.py (loop suite) vs Model/GAE.lean",
+                  "theorems": chk.gate["theorems"],
+                  "how": "bin/check C17 --replay <this file>  (re-runs the real training loop on the scripted env)"}
+        if o2["problems"]:
+            chk.violation(o2["problems"][0], replay)
+        else:
+            i = o2["diff"]
+            chk.violation(f"training-loop rollout: implementation and GAE model disagree at line {i}; the oracle holds",
+                          replay, no_input=True)
+    chk.notes.extend(sorted(notes))
+    chk.suite("loop-train_on_policy-ppo", n["PPO"][0], n["PPO"][1])
+    chk.suite("loop-train_multi_agent_on_policy-ippo", n["IPPO"][0], n["IPPO"][1])
+
+
 # ----------------------------------------------------------------------------- run
 def structured_cases(rng: random.Random, tier: str):
     cases = []
@@ -758,6 +1321,11 @@ def structured_cases(rng: random.Random, tier: str):
         ("IPPO", 2, 2, ELEVEN, True), ("IPPO", 3, 1, ELEVEN + ["other_0"], True),
     ]:
         cases.append(gen_case(rng, algo, T, E, ids, exact=True, vec=vec))
+    # … PPO with Dict / Tuple observations that have a Discrete (scalar) member, several envs and steps
+    for T, E, okind in [(3, 2, "dict"), (4, 3, "tuple"), (2, 4, "dict"), (5, 2, "tuple")]:
+        c = gen_case(rng, "PPO", T, E, None, exact=True)
+        c["okind"] = okind
+        cases.append(c)
     n_rand = 200 if tier == "quick" else 2000
     for _ in range(n_rand):
         algo = "IPPO" if rng.random() < 0.6 else "PPO"
@@ -779,10 +1347,16 @@ def run(chk: Check) -> None:
     chk.rule = ("real PPO.learn / IPPO.learn on rollouts with provenance-coded observations, actions, old log-probs "
                 "and values; T in 1..6, envs 1..4 (with and without an env dimension when 1), 1..3 agents in "
                 "homogeneous groups in several dict orders (interleaved with other groups, listed in NON-lexicographic order "
-                "within a group, and eleven agents agent_0..agent_10 sharing one policy), episode boundaries at the first/last step, in next_done, "
+                "within a group, and eleven agents agent_0..agent_10 sharing one policy), PPO observations flat Box or Dict/Tuple with a Discrete member (every member "
+                "decoded), episode boundaries at the first/last step, in next_done, "
                 "per column; gamma, lambda dyadic (exact diff) or 0.99/0.95-like with the real critic (toleranced); "
                 "distinct = distinct case dictionaries; non-trivial = an episode boundary inside the rollout/next_done "
-                "or more than one agent sharing a policy")
+                "or more than one agent sharing a policy; loop suite: the real train_on_policy (PPO, scripted vector env) "
+                "and train_multi_agent_on_policy (IPPO, scripted vectorised and plain parallel envs) for 2-3 rollouts, "
+                "episodes ending by termination / truncation only / both, inside rollouts and on their last step; every "
+                "learn() call's recorded rewards, dones, next_done are held against the environment's own episode log, "
+                "the recursion is recomputed over the true boundaries, and an identical twin agent learns from the same "
+                "rollout with everything after the true boundaries replaced (no-leak)")
     chk.assumptions = [
         "the recorder copies what learn() holds at the call sites (advantages/returns right after the loop, the six "
         "flattened tensors right before the minibatch loop); the harness checks the recorded inputs against the "
@@ -792,11 +1366,16 @@ def run(chk: Check) -> None:
         "float32/64 arithmetic is exact on the dyadic cases (every intermediate is checked to be representable), "
         f"relative tolerance {TOL} otherwise",
         "minibatch sampling (get_experiences_samples) indexes all six tensors with the same index array",
+        "loop suite: dones[0] of a rollout is not checked (the loops always store zeros there and the estimates never "
+        "read it); the scripted environments auto-reset like gymnasium vector envs (the observation returned with an "
+        "episode end is the first one of the next episode)",
     ]
     cases = []
+    corpus_loop = []
     for f in sorted((ROOT / "corpus" / "C17").glob("*.json")):
         c = json.loads(f.read_text())
-        cases.append(c.get("case", c))
+        c = c.get("case", c)
+        (corpus_loop if c.get("suite") == "loop" else cases).append(c)
     cases += structured_cases(rng, chk.tier)
     n = {"PPO": [0, 0], "IPPO": [0, 0]}
     single_step_reported = False
@@ -829,6 +1408,7 @@ def run(chk: Check) -> None:
                           {"case": case, "oracle_problems": out["problems"], "diff_at": out["diff"]})
     chk.suite("gae+rows-ppo", n["PPO"][0], n["PPO"][1])
     chk.suite("gae+rows-ippo", n["IPPO"][0], n["IPPO"][1])
+    run_loop_suite(chk, rng, seen_kinds, corpus_loop)
     probe_bootstrap(chk, rng, 2 if chk.tier == "quick" else 5)
     if chk.tier == "thorough":
         selftest(chk)
@@ -954,6 +1534,69 @@ def selftest(chk: Check) -> None:
         raise InfraError(f"C17 self-test: agents sorted by id in states/actions only was not noticed ({hits})")
     chk.notes.append("self-test: IPPO states/actions batched in sorted-id order (unsorted listing, eleven agents) detected")
 
+    # a scalar member of a Dict / Tuple observation flattened time-major while the rest stays env-major
+    def bad_flatten_members(*exps):
+        out = list(orig_flat(*exps))
+        s0 = exps[0]
+        fix = lambda v: v.reshape(v.shape[0] * v.shape[1], 1) if isinstance(v, torch.Tensor) and v.ndim == 2 else None
+        if isinstance(s0, dict):
+            out[0] = {k: (fix(v) if fix(v) is not None else out[0][k]) for k, v in s0.items()}
+        elif isinstance(s0, tuple):
+            out[0] = tuple(fix(v) if fix(v) is not None else o for v, o in zip(s0, out[0]))
+        return tuple(out)
+    member_probes = []
+    for okind in ("dict", "tuple"):
+        c = gen_case(rng, "PPO", 3, 2, None, exact=True)
+        c["okind"] = okind
+        member_probes.append(c)
+    ppo_mod.flatten_experiences = bad_flatten_members
+    try:
+        hits = [bool(o["problems"]) or o["diff"] is not None
+                for o in (one_case(chk, c, random.Random(5)) for c in member_probes)]
+    finally:
+        ppo_mod.flatten_experiences = orig_flat
+    if not all(hits):
+        raise InfraError(f"C17 self-test: a Discrete observation member flattened time-major was not noticed ({hits})")
+    chk.notes.append("self-test: PPO Dict/Tuple observation with a scalar member flattened time-major detected")
+
+    # training loops: the flag stored one step late loses truncations / is cleared when a plain env is reset
+    import agilerl.training.train_multi_agent_on_policy as tma
+    import agilerl.training.train_on_policy as top
+    lrng = random.Random(99)
+    loop_faults = [
+        (top, "train_on_policy", "done = next_done", "done = np.asarray(term, dtype=np.int8)",
+         gen_loop_case(lrng, "PPO", True, 5, 2, 2), "train_on_policy stores only terminations in dones"),
+        (tma, "train_multi_agent_on_policy", "obs, info = env.reset()\n",
+         "obs, info = env.reset()\n                                done = {a_: np.zeros(num_envs) for a_ in agent.agent_ids}\n",
+         gen_loop_case(lrng, "IPPO", False, 6, 1, 2, ID_SETS[1]),
+         "train_multi_agent_on_policy clears done when it resets a plain env"),
+    ]
+    n_loop = 0
+    for mod, name, old, new, lc, what in loop_faults:
+        try:
+            src = textwrap.dedent(inspect.getsource(getattr(mod, name)))
+        except (OSError, TypeError):
+            src = ""
+        # only the reset inside the step loop (the deepest-indented occurrence) for the multi-agent fault
+        pos = src.rfind(old) if old in src else -1
+        if pos < 0:
+            chk.notes.append(f"self-test: loop fault '{what}' not applicable to the source of {name}; skipped")
+            continue
+        ns: dict = {}
+        exec(compile(src[:pos] + new + src[pos + len(old):], f"<C17 self-test {name}>", "exec"), vars(mod), ns)
+        orig_f = getattr(mod, name)
+        setattr(mod, name, ns[name])
+        try:
+            o = run_loop_case(chk, lc)
+        finally:
+            setattr(mod, name, orig_f)
+        if not o["problems"] and o["diff"] is None:
+            raise InfraError(f"C17 self-test: seeded loop fault '{what}' was not noticed")
+        n_loop += 1
+        chk.notes.append(f"self-test: '{what}' detected by the loop suite")
+    if not n_loop:
+        raise InfraError("C17 self-test: no training-loop fault could be seeded (source of the loops not recognised)")
+
     # D18: the critic's copy of the shared encoder is not brought up to date after learning
     orig_share = ppo_mod.PPO.share_encoder_parameters
     state = {"n": 0}
@@ -986,6 +1629,19 @@ def replay(chk: Check, path: str) -> int:
     case = c.get("case", c)
     hooks()
     torch.set_num_threads(1)
+    if case.get("suite") == "loop":
+        o = run_loop_case(chk, case)
+        print(json.dumps({"case": {k: case[k] for k in ("suite", "algo", "vec", "T", "E", "R", "ids", "gamma", "lam")},
+                          "schedules": case["schedules"], "rollouts": o["rollouts"], "diff_at": o["diff"],
+                          "oracle_problems": o["problems"], "impl": o["impl"], "model": o["model"]}, indent=1))
+        if o["problems"]:
+            print(f"VIOLATION property=C17 replay={path}")
+            print(f"  -> {o['problems'][0]}"[:600])
+            return 1
+        if o["diff"] is not None:
+            print(f"VIOLATION property=C17 replay={path} no-failing-input-found")
+            return 1
+        return 0
     o = one_case(chk, case, random.Random(case["seed"]))
     print(json.dumps({"case": {k: case[k] for k in ("algo", "ids", "T", "E", "vec", "gamma", "lam", "akind", "exact")},
                       "diff_at": o["diff"], "oracle_problems": o["problems"],
